@@ -3,34 +3,52 @@ CHECK = {
     "level": "exploration",
     "engine": "E3",
     "technique": "bounded-exhaustive enumeration of generator families (all small lattice subsets, lattices, clusters, "
-                 "near-wall and cospherical sets, three box shapes) through both real Voronoi constructions, against "
-                 "tessellation identities, brute-force nearest generator and N-version agreement",
+                 "near-wall and cospherical sets, named deterministic generic sets of 2..2000 generators, spike cells against "
+                 "the block shells of the neighbour search; four box shapes) through both real Voronoi constructions, "
+                 "against tessellation identities, brute-force nearest generator / empty-circumsphere tests, N-version "
+                 "agreement and the search-radius invariant on every intermediate cell state",
     "level_text": "Both real grid classes (NewVoronoiGrid, OldVoronoiGrid from libcmi.a) are run on every member of the "
                   "listed families: (i) every 2..4-subset of the 3x3x3 lattice exactly (new construction), (ii) the same "
                   "subsets with a fixed irrational 1e-3 perturbation (both) and with the same pattern at 1e-6..1e-14 (nearly "
                   "coplanar/cospherical, together with perturbed cospherical shells), (iii) full and perturbed lattices 2^3..12^3, "
                   "geometric clusters 2^-k at every corner, generators 1e-9 from walls/edges/corners, exactly cospherical "
-                  "shells and their perturbations, in boxes 1:1:1, 1:2:4, 1:1:100 and a shifted cube; serial and 4-thread "
-                  "construction. Each case runs in a forked worker so that an abort, crash or hang of the real code is a "
-                  "recorded outcome. Oracle: positive volumes summing to the box, every face above 1e-12 L^2 has a partner "
-                  "of equal area / matching midpoint / same plane and lies on the bisector, walls covered once, generator "
-                  "inside its cell, get_index on a 17^3 lattice = brute-force nearest generator, old = new in volumes, "
-                  "centroids and neighbour sets; every coordinate handed to the exact predicates must lie in [1,2).",
-    "level_note": "Exhaustive over the listed families only (generator counts <= 1728); the quick tier uses one "
-                  "representative per orbit of the 48 cube symmetries for the subsets and lattices up to 6^3. Violations "
+                  "shells and their perturbations, (iv) generic sets: fixed pseudo-random members (uniform, strongly "
+                  "clustered, near the walls, nearly coplanar sheet) with 2..2000 generators, the counts on both sides of "
+                  "every block-count threshold of the point-location grid and of the job size of the construction, (v) "
+                  "spikes: a cell with a single far vertex (cone of 3|4 neighbours, apex distance R) and a generator h at "
+                  "D = 0.9..2.1 R behind the apex, over directions, position in the search block, every order of the "
+                  "neighbours in the index list, 60/270/1250 generators; in boxes 1:1:1, 1:2:4, 1:1:100 and a shifted "
+                  "cube; serial and 4-thread construction. Each case runs in a forked worker so that an abort, crash or "
+                  "hang of the real code is a recorded outcome. Oracle: positive volumes summing to the box, every face "
+                  "above 1e-12 L^2 has a partner of equal area / matching midpoint / same plane and lies on the bisector, "
+                  "walls covered once, generator inside its cell, every face vertex inside the box and not beyond the "
+                  "bisector plane with any other generator (brute force over all generators: complete for a missed cut), "
+                  "get_index on a 17^3 lattice = brute-force nearest generator, old = new in volumes, centroids and "
+                  "neighbour sets; every coordinate handed to the exact predicates must lie in [1,2); in (iv),(v) every "
+                  "cell is also built by hand with the real cell classes and after every insertion the search radius they "
+                  "report must bound the vertex distances (old) / circumspheres through the generator (new).",
+    "level_note": "Exhaustive over the listed families only (generator counts <= 2000); the quick tier uses one "
+                  "representative per orbit of the 48 cube symmetries for the subsets, lattices up to 6^3, generic sets "
+                  "with 2 members per small count, 2 uniform sets of 2000 and clustered sets up to 500, and ~500 spike "
+                  "members of 60 generators; the thorough tier has 24+20 sets of 2000 and ~15 000 spike members. The "
+                  "generic members are fixed point sets (seeded by their name), not samples drawn at run time. Violations "
                   "of the new construction carry a regime suffix assigned by the harness (precondition monitor / "
                   "flattest real-space Delaunay tetrahedron), see NOTES.md. The old "
                   "construction is judged only on inputs farther from degeneracy than its own OLDVORONOI_TOLERANCE; "
                   "elsewhere its outcome is recorded. Tolerances are derived per case (baseline 1e-10 L, conditioning "
-                  "16 eps L^2/s_min, old tolerance 4 eps_old/s_gen) and near misses are counted.",
+                  "16 eps L^2/s_min, old tolerance 4 eps_old/s_gen; for (iv),(v) the volume and wall sums use the same "
+                  "model per cell, without the 1e-10 floor; the search-radius comparison uses a running error bound of "
+                  "the circumcentre formula) and near misses are counted.",
     "quick_deadline": 90,
     "thorough_deadline": 1200,
     "parts": [
-        {"name": "subsets_exact", "bin": "c15_voronoi", "args": ["--mode", "subsets_exact"], "quick_share": 1, "thorough_share": 2},
-        {"name": "subsets_perturbed", "bin": "c15_voronoi", "args": ["--mode", "subsets_perturbed"], "quick_share": 1, "thorough_share": 3},
-        {"name": "near_degenerate", "bin": "c15_voronoi", "args": ["--mode", "near_degenerate"], "quick_share": 1, "thorough_share": 6},
-        {"name": "families", "bin": "c15_voronoi", "args": ["--mode", "families"], "quick_share": 2, "thorough_share": 4},
-        {"name": "threads", "bin": "c15_voronoi_omp", "args": ["--mode", "threads"], "quick_share": 2, "thorough_share": 3,
+        {"name": "subsets_exact", "bin": "c15_voronoi", "args": ["--mode", "subsets_exact"], "quick_share": 1, "thorough_share": 1.5},
+        {"name": "subsets_perturbed", "bin": "c15_voronoi", "args": ["--mode", "subsets_perturbed"], "quick_share": 1, "thorough_share": 2},
+        {"name": "near_degenerate", "bin": "c15_voronoi", "args": ["--mode", "near_degenerate"], "quick_share": 2, "thorough_share": 6},
+        {"name": "families", "bin": "c15_voronoi", "args": ["--mode", "families"], "quick_share": 1.5, "thorough_share": 2},
+        {"name": "generic", "bin": "c15_voronoi", "args": ["--mode", "generic"], "quick_share": 6, "thorough_share": 12},
+        {"name": "spikes", "bin": "c15_voronoi", "args": ["--mode", "spikes"], "quick_share": 5, "thorough_share": 12},
+        {"name": "threads", "bin": "c15_voronoi_omp", "args": ["--mode", "threads"], "quick_share": 2.5, "thorough_share": 3.5,
          "env": {"OMP_NUM_THREADS": "4"}},
     ],
     "assumptions": [],
